@@ -23,7 +23,7 @@ SPEC = {
              "rule whose marker bit reveals rejection, #dN values are assembled in batches when the predicate accepts and "
              "alone when it rejects; non-trivial = cell within 4 of a range boundary (or the sized-literal width boundary "
              "for #d) or any rejected cell; distinct = distinct (kind, N, v, spelling)"),
-    "monitors": ["typed-accept-reject", "typed-bits", "typed-reject-alone", "typed-unused-parameter", "data-accept", "data-reject-alone", "wide-boundaries"],
+    "monitors": ["typed-accept-reject", "typed-bits", "typed-reject-alone", "typed-unused-parameter", "data-accept", "data-reject-alone", "wide-boundaries", "value-settles-after-a-larger-guess"],
     "min_nontrivial": {"quick": 3000, "thorough": 50000},
     "assumptions": ["the fallback rule `t {x} => 0b0 @ x`(N+9)` is only taken when the typed rule's constraint fails (smallest encoding wins)"],
 }
@@ -284,9 +284,49 @@ def run_data_alone(ctx, worker, n, v, how):
     ctx.nontrivial_case(repr(("d", n, v, how, "alone")).encode())
 
 
+def run_guess_shrinks(ctx, worker, kind, n, v):
+    """The value is `here + K` where label `here` follows an instruction of a width-overloaded family with a forward
+    reference: its address is guessed too high in the first pass (3) and settles at 2. Acceptance must be decided on the
+    final value v = 2 + K alone; an intermediate guess outside the range must not reject (nor a guess inside admit)."""
+    k = v - 2
+    expr = "here + %d" % k if k >= 0 else "here - %d" % -k
+    head = "#ruledef\n{\n    jmp {a: u8} => 0x10 @ a\n    jmp {a: u16} => 0x20 @ a\n    t {x: %s%d} => 0b1 @ x\n}\njmp far\nhere:\nfar:\n" % (kind if kind != "d" else "u", n)
+    src = head + ("#d%d %s\n" % (n, expr) if kind == "d" else "t %s\n" % expr)
+    job = lib.asm_job({"main.asm": src}, want=["msgs"])
+    rec = worker.run(job)
+    ctx.evaluated()
+    if lib.abnormal(rec):
+        ctx.excluded += 1
+        return
+    ctx.monitor("value-settles-after-a-larger-guess")
+    want = data_accepts(n, v, None) if kind == "d" else accepts(kind, n, v)
+    if lib.ok(rec) != want:
+        sig = {"kind": kind, "N": n, "v": v, "what": "rejected-in-range"} if is_known_n0(kind, n, v) and not lib.ok(rec) else \
+            {"kind": kind, "what": "accepted-out-of-range" if lib.ok(rec) else "rejected-in-range", "value_depends_on_a_label_whose_guess_shrinks": True}
+        ctx.violation("range-predicate", sig, job, {"accepted": want}, {"accepted": lib.ok(rec), "msgs": lib.first_messages(rec)},
+                      note="alone guess-shrinks N=%d v=%d" % (n, v))
+        return
+    if want:
+        nbits, value = lib.out_bits(rec)
+        w = n if kind == "d" else n + 1
+        tail = value & ((1 << w) - 1)
+        expect = (v & ((1 << n) - 1)) | ((1 << n) if kind != "d" else 0)
+        if nbits != 16 + w or (value >> w) != 0x1002 or tail != expect:
+            ctx.violation("range-predicate", {"kind": kind, "what": "wrong-bits", "value_depends_on_a_label_whose_guess_shrinks": True}, job,
+                          {"len": 16 + w, "tail": expect}, {"len": nbits, "value": hex(value)}, note="alone guess-shrinks N=%d v=%d" % (n, v))
+            return
+    ctx.nontrivial_case(repr((kind, n, v, "guess-shrinks")).encode())
+
+
 def shard(ctx):
     worker = ctx.worker("rel")
     full_n = 16
+    # directed: values that pass through a larger guess before settling (all boundary cells, every kind)
+    gs = [(kind, n, b + d) for n in range(0, 17) for kind in "usid"
+          for b in sorted(set([0, 1 << n, -(1 << (n - 1)) if n else 0, (1 << (n - 1)) if n else 0, -(1 << n)])) for d in (-2, -1, 0, 1)]
+    for k, (kind, n, v) in enumerate(gs):
+        if k % ctx.nshards == ctx.shard and not ctx.out_of_time():
+            run_guess_shrinks(ctx, worker, kind, n, v)
     # work units: (kind, N, spelling)
     units = []
     for n in range(0, 17):
